@@ -1,4 +1,6 @@
 #![allow(dead_code)]
+mod c13;
+mod c14;
 mod c15;
 mod c16;
 mod net;
@@ -15,6 +17,8 @@ fn main() {
         let _ = tracing_subscriber::fmt().with_max_level(tracing::Level::INFO).with_ansi(false).with_writer(std::io::sink).try_init();
     }
     let code = match args.check.as_str() {
+        "c13" => c13::run(&args),
+        "c14" => c14::run(&args),
         "c15" => c15::run(&args),
         "c16" => c16::run(&args),
         "c09" => tls::c09(&args),
